@@ -24,6 +24,8 @@ class Side:
         self.events, self.states = [], []
         self.started = False
         self.nsent = 0
+        self.born = now          # virtual time at which this incarnation came to life
+        self.sent_log = []       # (time, multicast?) of every SD datagram this incarnation put on the wire
         self.first = "ok " + self.impl.state(0)
         if now > 0:
             self.ev(f"adv {now}")
@@ -64,6 +66,9 @@ class World:
         for src, dest, data in sends:
             mc = dest == "~"
             dst = "w" if src == OFF else "o"
+            sender = self.sides["o" if src == OFF else "w"]
+            if sender is not None:
+                sender.sent_log.append((self.now, mc))
             if not mc and int(dest) != (WAT if dst == "w" else OFF):
                 continue
             if self.fault and self.now <= self.fault[0]:
@@ -211,9 +216,17 @@ def run(ctx: core.Ctx) -> core.Report:
                 "clock and a simulated network; 1..3 disturbances (graceful stop/start, crash/restart, lone stop or crash) placed at, "
                 "one tick before and after the timer deadlines of the run and at random ticks; loss / duplication / reordering "
                 "windows (finite TTLs); 6 timing families incl. infinite TTLs; oracle at last disturbance + TTL + period + startup")
-    for k in range(ctx.n(90, 1200)):
-        infinite = k % 4 == 3
-        cyc = rng.choice([100, 250, 400])
+    ncases = ctx.n(90, 1200)
+    for k in range(-1, ncases):
+        corpus = k == -1
+        if corpus:
+            # corpus case of known finding D11 (run first on every run): infinite TTLs, the watcher crashes and restarts, then -
+            # before the old offerer sends another multicast message - the offerer crashes and restarts
+            saved_rng, rng = rng, __import__("random").Random(11)
+        elif k == 0:
+            rng = saved_rng
+        infinite = k % 4 == 3 or corpus
+        cyc = 400 if corpus else rng.choice([100, 250, 400])
         if infinite:
             tm = SDV.TimingsSpec(initMin=0, initMax=rng.choice([0, 20]), reps=rng.choice([0, 2]), base=10, cyclic=cyc, coll=rng.choice([0, 5]),
                                  annTtl=0xFFFFFF, subTtl=0xFFFFFF, refresh=None, rrMin=0, rrMax=10, findTtl=3)
@@ -222,6 +235,12 @@ def run(ctx: core.Ctx) -> core.Report:
             tm = SDV.TimingsSpec(initMin=0, initMax=rng.choice([0, 20]), reps=rng.choice([0, 2]), base=10, cyclic=cyc, coll=rng.choice([0, 5]),
                                  annTtl=ttl, subTtl=ttl, refresh=rng.choice([200, 400]), rrMin=0, rrMax=10, findTtl=3)
         plan, fault = make_plan(rng, tm, 3000, infinite)
+        if corpus:
+            tm = SDV.TimingsSpec(initMin=0, initMax=0, reps=0, base=10, cyclic=400, coll=5, annTtl=0xFFFFFF, subTtl=0xFFFFFF, refresh=None,
+                                 rrMin=0, rrMax=10, findTtl=3)
+            rng = __import__("random").Random(11)
+            plan, fault = [(0, "start", "o"), (0, "start", "w"), (1000, "crash", "w"), (1005, "restart", "w"), (1020, "crash", "o"),
+                           (1021, "restart", "o")], None
         w = World(tm, rng, ctx.model)
         case = {"timings": tm.tokens(), "plan": plan, "fault_window": fault}
         try:
@@ -273,7 +292,17 @@ def run(ctx: core.Ctx) -> core.Report:
                 subs = [l for l in o.impl.outs if l.split(" ", 1)[1].startswith(("subscribed 0 ", "unsubscribed 0 "))]
                 subscribed = bool(subs) and subs[-1].split(" ")[1] == "subscribed"
                 if subscribed != (offering and wrunning):
-                    rep.violation(f"C04:server-{'stale-subscribed' if subscribed else 'not-subscribed'}",
+                    sig = f"C04:server-{'stale-subscribed' if subscribed else 'not-subscribed'}"
+                    # known finding D11 (known_findings.json): infinite TTLs, both peers restarted, and the watcher's present
+                    # incarnation came to life AFTER the last multicast message of the offerer's previous incarnation and BEFORE
+                    # the offerer's present one: the first multicast offer of the new offerer is the first multicast message
+                    # this watcher ever saw from it, so the reboot is not detectable (C07: a first message never is), the
+                    # watcher keeps believing in its subscription, and with an infinite TTL and no refresh it never repeats it
+                    if (infinite and not subscribed and offering and wrunning and getattr(o, "restarted", False)
+                            and wt.born < o.born and wt.impl.p.subscriber.subscribeentries
+                            and not any(mc and wt.born <= t < o.born for g in w.graves if g.role == "o" for t, mc in g.sent_log)):
+                        sig += ":undetectable-double-restart-infinite-ttl"
+                    rep.violation(sig,
                                   f"{D} ms after the last disturbance the offerer's listener says subscribed={subscribed}; offering={offering}, "
                                   f"watcher running={wrunning}", case)
             rep.nontrivial.add((tm.tokens(), tuple(plan), fault))
